@@ -18,7 +18,7 @@ EXTRA = {
     "C04": "Also: input decomposition unchanged with copy=True; ragged generic slices for SVD compression; per-factor scales 1e-19..1e+19; mdotchain: every sequence of 2 (thorough 3) mode products on ONE CPTensor/TuckerTensor object (function/method x copy x operand that changes the mode size), continuing on the returned object or on the argument a copy=False step updated in place.",
     "C05": "Also: graded low-rank spectra; data units 1e-9 / 1e+9.",
     "C06": "Also: size-1 modes; callback that ends the run; mask x sparsity; negative fixed modes; verbose and estimator-class variants; memory of the previous iterate for masked HOOI; mask x line search for CP-ALS.",
-    "C07": "Also: memory-efficient MTTKRP registered as backend method; hals_nnls flags nonzero_rows / exact; HOOI with a randomised-SVD generator on a (9,4,4) tensor.",
+    "C07": "Also: memory-efficient MTTKRP registered as backend method; hals_nnls flags nonzero_rows / exact; HOOI with a randomised-SVD generator on a (9,4,4) tensor; HALS with a strict subset of non-negative modes and normalize_factors.",
     "C08": "Also: user initialisation with non-unit weights; einsum backend; Parafac2 class with its defaults; exceptions on valid requests are violations (whitelist of documented refusals); TT ranks clipped by sizes only; CMTF normalised outputs represent the un-normalised tensors.",
     "C09": "Also: TensorRing class; Tucker under the einsum backend; two-call histories sharing the rank list; int64 input.",
     "C10": "Also: estimator classes; einsum backend; fixed mode x subset of declared modes; negative dictionary keys; size-1 modes; the PARAFAC2 line-search step driven directly.",
